@@ -28,6 +28,7 @@ class Run:
         self.failures = []
         self.nontrivial = set()
         self.bound = ""
+        self.max_failures = 3
 
     def inputs(self, gen):
         """Iterate the scope, or just the replayed input."""
@@ -35,7 +36,7 @@ class Run:
             yield self.replay
             return
         for x in gen:
-            if len(self.failures) >= 3:
+            if len(self.failures) >= self.max_failures:
                 return
             yield x
 
